@@ -145,7 +145,27 @@ def execute(case, result):
             returned.append((vt.clock(), value))
             return value
 
-        svc = Stepwise(pool, base, (20, upper), **kw)
+        # the same service by every route the module offers: the class itself, the decorator skeleton called like a
+        # controller (with the interval by keyword, positionally or left out), and the skeleton's template put in front of the pool
+        route = ["class", "skeleton", "skeleton_positional", "template"][(len(case["actions"]) + int(case["periods"])) % 4]
+        if not kw:
+            route = ["skeleton", "template", "skeleton", "class"][(len(case["actions"]) + int(case["periods"])) % 4]  # the interval left out: mostly by the skeleton
+        if route == "class":
+            svc = Stepwise(pool, base, (20, upper), **kw)
+        else:
+            from cobald.controller.stepwise import stepwise
+
+            control = stepwise(base)
+            control.add(upper, supply=20)
+            if route == "skeleton":
+                svc = control(pool, **kw)
+            elif route == "skeleton_positional":
+                svc = control(pool, *kw.values())
+            else:
+                svc = control.s(**kw) >> pool
+            if type(svc) is not Stepwise:
+                return [("the stepwise skeleton built %r, not a Stepwise controller" % (svc,), None)]
+        result.count("stepwise_services_built_by_route_%s%s" % (route, "_with_the_default_interval" if not kw else ""))
     elif kind == "switch":
         class Rec(Controller):
             def regulate(self, itv):
